@@ -1389,6 +1389,42 @@ impl<'a> JsonString<'a> {
     }
 }
 
+/// Verification hooks: a string / number node at an arbitrary offset of `text`,
+/// and the private escape decoders (what a cursor hands out for malformed input).
+#[cfg(feature = "verif-hooks")]
+impl<'a> JsonString<'a> {
+    #[allow(missing_docs)]
+    pub fn verif_at(text: &'a [u8], start: usize) -> Self {
+        Self { text, start }
+    }
+}
+
+#[cfg(feature = "verif-hooks")]
+impl<'a> JsonNumber<'a> {
+    #[allow(missing_docs)]
+    pub fn verif_at(text: &'a [u8], start: usize) -> Self {
+        Self { text, start }
+    }
+}
+
+#[cfg(feature = "verif-hooks")]
+#[allow(missing_docs)]
+pub fn verif_decode_escapes(bytes: &[u8]) -> Result<String, JsonError> {
+    decode_escapes(bytes)
+}
+
+#[cfg(feature = "verif-hooks")]
+#[allow(missing_docs)]
+pub fn verif_parse_hex4(hex: &[u8]) -> Result<u16, JsonError> {
+    parse_hex4(hex)
+}
+
+#[cfg(feature = "verif-hooks")]
+#[allow(missing_docs)]
+pub fn verif_nested_number_span(text: &[u8], start: usize) -> usize {
+    nested_number_span(text, start)
+}
+
 /// Decode JSON string escape sequences.
 ///
 /// Handles: \\, \", \/, \b, \f, \n, \r, \t, and \uXXXX (including surrogate pairs)
